@@ -31,6 +31,7 @@ LEVEL_TEXT = ("Generated programs whose true per-statement stdout and value come
               "REPL concatenation) and must pass; one corrupted want must make the doctest fail with a got/want error "
               "at exactly that want with nothing executed afterwards. Exhaustive over all programs of <= 3 (quick) / 4 "
               "(thorough) statements x placements, randomised with shrinking beyond.")
+LEVEL_ADDED = ('A further corruption: a lone quote character as the want of a statement that prints nothing and has no value.')
 LEVEL_NOTE = ("Trusted: CPython as reference executor; the generator's knowledge of where 'single' mode echoes a value. "
               "Wants in the band the statement leaves open are not generated; expected-exception wants are C03's domain.")
 ASSUMPTIONS = [
